@@ -214,13 +214,18 @@ fn gen_body_case(rng: &mut Rng) -> Case {
     let s_val = match rng.below(4) { 0 => String::new(), 1 => "hello world & more=1".into(), 2 => "狼 ohkami".into(), _ => rng.string_over(b"abc019", 1, 10) };
     let a_ok = rng.chance(3, 4);
     let a_val = if a_ok { rng.below(100000).to_string() } else { rng.pick(&["abc", "-1", "4294967296", "1.5", ""]).to_string() };
-    let ct_class = *rng.pick_weighted(&[(5, "exact"), (2, "charset"), (2, "mismatch"), (2, "missing"), (1, "prefix-sharing")]);
+    // "truncated": the header value is a proper prefix of the extractor's media type ("application/jso", "application", "text");
+    // "empty": the header is there with an empty value. Neither names the extractor's type: the gate stays shut.
+    let ct_class = *rng.pick_weighted(&[(5, "exact"), (2, "charset"), (2, "mismatch"), (2, "missing"), (1, "prefix-sharing"), (2, "truncated"), (1, "empty")]);
+    let cut = rng.u64() as usize;
     let ct = |base: &str| -> Option<String> {
         match ct_class {
             "exact" => Some(base.to_string()),
             "charset" => Some(format!("{base}; charset=utf-8")),
             "mismatch" => Some(if base == "text/plain" { "application/json".into() } else { "text/plain".into() }),
             "prefix-sharing" => Some(format!("{base}x")),
+            "truncated" => Some(base[..1 + cut % (base.len() - 1)].to_string()),
+            "empty" => Some(String::new()),
             _ => None,
         }
     };
@@ -294,7 +299,7 @@ fn gen_body_case(rng: &mut Rng) -> Case {
                 format!("--{b}\r\nContent-Disposition: form-data; name=\"s\"\r\n\r\n{s_val}\r\n--{b}--\r\n").into_bytes()
             };
             let base = format!("multipart/form-data; boundary={b}");
-            let ctv = match ct_class { "exact" | "charset" => Some(base), "mismatch" => Some("text/plain".into()), "prefix-sharing" => Some(format!("multipart/form-datax; boundary={b}")), _ => None };
+            let ctv = match ct_class { "exact" | "charset" => Some(base), "mismatch" => Some("text/plain".into()), "prefix-sharing" => Some(format!("multipart/form-datax; boundary={b}")), "truncated" => Some("multipart/form-data"[..1 + cut % 18].to_string()), "empty" => Some(String::new()), _ => None };
             let mut headers = vec![];
             if let Some(c) = ctv { headers.push(("Content-Type".to_string(), c)) }
             headers.push(("Content-Length".to_string(), body.len().to_string()));
